@@ -855,6 +855,30 @@ func (rs *RelationService) scanRelation(fileOffset uint64, r *Relation, fields F
 	return results, nil
 }
 
+// checkColumnList reports an error if cols names a column that r does not have,
+// or names a column twice. A tuple is keyed by column name, so the value given
+// for such a column would be dropped silently.
+func checkColumnList(r *Relation, cols []string) error {
+	seen := make(map[string]bool, len(cols))
+	for _, col := range cols {
+		found := false
+		for _, fd := range r.Fields {
+			if fd.Name == col {
+				found = true
+				break
+			}
+		}
+		if !found {
+			return fmt.Errorf("%w: %s", ErrFieldNotFound, col)
+		}
+		if seen[col] {
+			return fmt.Errorf("%w: %s", ErrDuplicateColumn, col)
+		}
+		seen[col] = true
+	}
+	return nil
+}
+
 func (rs *RelationService) Insert(tableName string, cols []string, vals []interface{}) (WALBatch, error) {
 	var walLogs WALBatch
 
@@ -891,6 +915,10 @@ func (rs *RelationService) Insert(tableName string, cols []string, vals []interf
 
 	if len(cols) != len(vals) {
 		return walLogs, ErrColCountMismatch
+	}
+
+	if err := checkColumnList(schema, cols); err != nil {
+		return walLogs, err
 	}
 
 	for i, col := range cols {
@@ -955,6 +983,10 @@ func (rs *RelationService) Update(tableName string, rowID uint32, cols []string,
 
 	r, err := rs.getRelationSchema(tableName)
 	if err != nil {
+		return walLogs, err
+	}
+
+	if err := checkColumnList(r, cols); err != nil {
 		return walLogs, err
 	}
 
